@@ -6,7 +6,15 @@
     roundtrip_str cfg radix a → from_str_radix (to_str_radix a radix) radix : Ok(hex) / Err(..) / P; spec Ok(a)
     roundtrip_be  cfg radix a → from_radix_be (to_radix_be a radix) radix   : S(hex) / N / P;    spec S(a)
     roundtrip_le  cfg radix a → from_radix_le (to_radix_le a radix) radix   : S(hex) / N / P;    spec S(a)
-  `radix` decimal, `a` hex pattern.  A digit value 256 cannot occur (digits `< radix ≤ 256`).
+    roundtrip_parse_str   cfg radix a → parse_str_radix (to_str_radix a radix) radix : hex / P;        spec a
+    roundtrip_parse_bytes cfg radix a → parse_bytes (to_str_radix a radix) radix     : S(hex) / N / P; spec S(a)
+    roundtrip_from_str    cfg a       → <T as FromStr>::from_str (to_str_radix a 10) : Ok(hex)/Err(..); spec Ok(a)
+    roundtrip_be_le cfg radix a → from_radix_le (reverse (to_radix_be a radix)) radix : S(hex)/N/P;    spec S(a)
+    roundtrip_le_be cfg radix a → from_radix_be (reverse (to_radix_le a radix)) radix : S(hex)/N/P;    spec S(a)
+  `radix` decimal (any u32), `a` hex pattern.  A digit value 256 cannot occur (digits `< radix ≤ 256`).
+  Every spec answer is a single value: the property fixes the output for an in-range radix and demands a
+  panic (`P`) for every other radix — also for the value zero and for negative values, and for the composed
+  round trips (the printing half panics first).
 -/
 import Bnum.Drive.Util
 import Bnum.Model.Radix
@@ -46,6 +54,36 @@ def handle : Handler := fun c op args =>
   | "roundtrip_le", [r, a] => do
     let radix ← r.toNat?; let a ← parseVal c a
     let mo := (UI.toRadixLe w a radix).bind fun s => UI.fromRadixLe w c.n s radix
+    let sp := if 2 ≤ radix ∧ radix ≤ 256 then "S(" ++ showVal c a ++ ")" else "P"
+    some (showOut (showOpt (showVal c)) mo, sp)
+  | "roundtrip_parse_str", [r, a] => do
+    let radix ← r.toNat?; let a ← parseVal c a
+    let mo : Outcome (List Nat) :=
+      if c.signed then (II.toStrRadix w a radix).bind fun s => II.parseStrRadix w c.n s radix
+      else (UI.toStrRadix w a radix).bind fun s => UI.parseStrRadix w c.n s radix
+    let sp := if 2 ≤ radix ∧ radix ≤ 36 then showVal c a else "P"
+    some (showOut (showVal c) mo, sp)
+  | "roundtrip_parse_bytes", [r, a] => do
+    let radix ← r.toNat?; let a ← parseVal c a
+    let mo : Outcome (Option (List Nat)) :=
+      if c.signed then (II.toStrRadix w a radix).bind fun s => II.parseBytes w c.n s radix
+      else (UI.toStrRadix w a radix).bind fun s => UI.parseBytes w c.n s radix
+    let sp := if 2 ≤ radix ∧ radix ≤ 36 then "S(" ++ showVal c a ++ ")" else "P"
+    some (showOut (showOpt (showVal c)) mo, sp)
+  | "roundtrip_from_str", [a] => do
+    let a ← parseVal c a
+    let mo : Outcome PRes :=
+      if c.signed then (II.toStrRadix w a 10).bind fun s => II.fromStr w c.n s
+      else (UI.toStrRadix w a 10).bind fun s => UI.fromStr w c.n s
+    some (showOut (C10.showPRes c) mo, "Ok(" ++ showVal c a ++ ")")
+  | "roundtrip_be_le", [r, a] => do
+    let radix ← r.toNat?; let a ← parseVal c a
+    let mo := (UI.toRadixBe w a radix).bind fun s => UI.fromRadixLe w c.n s.reverse radix
+    let sp := if 2 ≤ radix ∧ radix ≤ 256 then "S(" ++ showVal c a ++ ")" else "P"
+    some (showOut (showOpt (showVal c)) mo, sp)
+  | "roundtrip_le_be", [r, a] => do
+    let radix ← r.toNat?; let a ← parseVal c a
+    let mo := (UI.toRadixLe w a radix).bind fun s => UI.fromRadixBe w c.n s.reverse radix
     let sp := if 2 ≤ radix ∧ radix ≤ 256 then "S(" ++ showVal c a ++ ")" else "P"
     some (showOut (showOpt (showVal c)) mo, sp)
   | _, _ => none
